@@ -164,13 +164,37 @@ def gen_branch_replace(g: Gen, c: Contract):
     return {'self': b, 'jump_targets': tuple(new)}
 
 
+def gen_insert_ctrl(g: Gen, c: Contract):
+    r = g.rng
+    scfg = g.scfg(with_be=0.03)
+    keys = list(scfg.graph)
+    P = r.sample(keys, r.randint(1, len(keys)))
+    targeted = sorted({t for p in P for t in scfg.graph[p].jump_targets})
+    S_ = r.sample(targeted, r.randint(0, min(3, len(targeted)))) if targeted else []
+    if r.random() < 0.1:
+        S_.append(r.choice(UNIVERSE))
+    return {'self': scfg, 'new_name': 'n', 'predecessors': P, 'successors': S_}
+
+
+def gen_tails_exits(g: Gen, c: Contract):
+    r = g.rng
+    scfg = g.scfg(with_be=0.03)
+    keys = list(scfg.graph)
+    T = r.sample(keys, r.randint(1, min(3, len(keys))))
+    targeted = sorted({t for p in T for t in scfg.graph[p].jump_targets if t not in T})
+    E = r.sample(targeted, r.randint(0, min(3, len(targeted)))) if targeted else []
+    if not E:
+        E = [r.choice(UNIVERSE)]
+    return {'self': scfg, 'tails': T, 'exits': E}
+
+
 def gen_graph_and_pair(g: Gen, c: Contract):
     scfg = g.scfg()
     keys = list(scfg.graph)
     return {'self': scfg, 'begin': g.rng.choice(keys) if g.rng.random() < 0.9 else 'zz', 'end': g.rng.choice(keys + UNIVERSE)}
 
 
-GENERATORS = {'graph_and_pair': gen_graph_and_pair, 'graph_and_subset': gen_graph_and_subset, 'insert': gen_insert, 'branch_replace': gen_branch_replace}
+GENERATORS = {'insert_ctrl': gen_insert_ctrl, 'tails_exits': gen_tails_exits, 'graph_and_pair': gen_graph_and_pair, 'graph_and_subset': gen_graph_and_subset, 'insert': gen_insert, 'branch_replace': gen_branch_replace}
 
 
 def gen_args(g: Gen, c: Contract):
